@@ -47,6 +47,11 @@ def runs(index, entries=("backward", "mtl_backward")):
     return P, [r for e in entries for r in done[e]]
 
 
+def in_stage(e, name="_differentiate") -> bool:
+    """The event was emitted by the differentiation stage or by a helper running on its behalf (generator of row blocks, ...)."""
+    return name in e["function"] or any(name in f for f in e.get("stack", ()))
+
+
 def evs(res, *kinds):
     return [e for e in res.events if e["kind"] in kinds]
 
